@@ -340,7 +340,7 @@ def run_directed(seed, shard, backend):
 
 
 def plan(tier, seed):
-    n = 6 if tier == "quick" else 60
+    n = 6 if tier == "quick" else 150
     return [{"n": n, "seed": seed * 122949829 + i * 1000} for i in range(16)]
 
 
